@@ -151,14 +151,28 @@ def rule_t1(ctx):
                     elif rv["k"] == "aggregate":
                         for o in rv["ops"]:
                             items.append((o, "return", "return"))
+                elif st["k"] == "assign" and st["place"]["p"] and st["rv"]["k"] == "aggregate" and st["rv"].get("akind") == "array" and "vec" in (st["sp"][5] if len(st["sp"]) > 5 else []):
+                    # `vec![Some(e)]`: the macro writes the array of elements into the new vector's buffer
+                    for o in st["rv"]["ops"]:
+                        items.append((o, "element of vec![..]", "push"))
             for (op, how, seg) in items:
                 if op["k"] not in ("copy", "move"):
                     continue
                 origins = set(body.trace(op["place"]))
-                for (r, p) in list(origins):
-                    if r[0] == "agg":
-                        # a wrapped payload such as Some(e) / vec![..]: look at what was wrapped
-                        for o in body.blocks[r[1]]["stmts"][r[2]]["rv"]["ops"]:
+                done = set()
+                for _ in range(5):
+                    # a wrapped payload such as Some(e) / vec![Some(e)] / Err(vec![Some(e)]): look at what was wrapped
+                    fresh = [(r, p) for (r, p) in origins if (r, p) not in done]
+                    if not fresh:
+                        break
+                    for (r, p) in fresh:
+                        done.add((r, p))
+                        inner = []
+                        if r[0] == "agg":
+                            inner = body.blocks[r[1]]["stmts"][r[2]]["rv"]["ops"]
+                        elif r[0] == "call" and r[1] not in producers and mir.last_seg(str(r[2])) in ("into_vec", "box_assume_init_into_vec_unsafe", "write", "new", "from", "into"):
+                            inner = body.term(r[1])["args"]
+                        for o in inner:
                             if o["k"] in ("copy", "move"):
                                 origins |= set(body.trace(o["place"]))
                 for (r, p) in origins:
